@@ -188,6 +188,8 @@ PNext ==
 \* "done" stutters, so that a deadlock reported by TLC is a pusher that stops without an outcome
 PNextD == PNext \/ (pc = "done" /\ UNCHANGED allvars)
 PSpec == PInit /\ [][PNextD]_allvars /\ WF_allvars(PNext)
+\* without the fairness condition (safety configurations)
+PSafeSpec == PInit /\ [][PNextD]_allvars
 
 \* ------------------------------------------------------------ properties --
 \* termination: every behaviour reaches "done" (PassBound says how soon the loop ends)
